@@ -192,7 +192,7 @@ Section Hier.
     candidates ms k = Ok cs ->
     lookup ms k = match sort_desc cs with
                   | [] => ONoMethod
-                  | c1 :: rest => rank_outcome (c1 :: filter (fun c2 => negb (dominates c1 c2)) rest)
+                  | c1 :: rest => rank_outcome (c1 :: grp [c1] rest)
                   end.
   Proof.
     intros H. unfold Resolve.lookup, Resolve.mro. rewrite H. cbn [rbind].
@@ -209,7 +209,7 @@ Section Hier.
       + intros _ m Hm. destruct (applicable_ty m k) eqn:Ea; [|reflexivity].
         apply (cand_applicable _ _ _ _ H Hm) in Ea. destruct Ea as (c & Hc & _).
         apply sort_desc_In in Hc. rewrite E in Hc. destruct Hc.
-      + unfold rank_outcome. destruct (filter _ rest); discriminate.
+      + unfold rank_outcome. destruct (grp _ rest); discriminate.
     - intros Hno. destruct (sort_desc cs) as [|c1 rest] eqn:E; [reflexivity|].
       assert (Hc : In c1 cs) by (apply sort_desc_In; rewrite E; now left).
       pose proof Hc as Hc'. apply (cand_In _ _ _ _ H) in Hc'. destruct Hc' as (lv & _ & Hm & _).
@@ -226,7 +226,7 @@ Section Hier.
     2: { unfold Resolve.lookup, Resolve.mro in H. rewrite Ec in H. cbn [rbind] in H. destruct e; discriminate. }
     rewrite (lookup_unfold _ _ _ Ec) in H. rename H into H'.
     destruct (sort_desc cs) as [|c1 rest] eqn:E; [discriminate|].
-    unfold rank_outcome in H'. destruct (filter _ rest); [|discriminate]. injection H' as <-.
+    unfold rank_outcome in H'. destruct (grp _ rest); [|discriminate]. injection H' as <-.
     assert (Hc : In c1 cs) by (apply sort_desc_In; rewrite E; now left).
     pose proof Hc as Hc'. apply (cand_In _ _ _ _ Ec) in Hc'. destruct Hc' as (lv & _ & Hm & _).
     exists (c_m c1). repeat split; [exact Hm|]. apply (cand_applicable _ _ _ _ Ec Hm). eauto.
